@@ -494,6 +494,46 @@ def check_cases(col):
     col.sample({'check_combinations_enumerated': n}, 'check')
 
 
+def reflected_operands(col, rng):
+    """`x & m` where only the RIGHT operand is an M expression / combinator (x is a type, a Val, a predicate, a tuple pattern: Python
+    falls back to the right operand's reflected method): wherever Python allows the expression, it denotes And(x, m) - x is
+    evaluated first and the result is m's, exactly as for the constructor"""
+    n = 2
+    for rep in range(60):
+        log, counter = [], [0]
+        lefts, rights = [], []
+        while len(lefts) < 4:
+            counter[0] += 1
+            a = gen_atom(rng, n, counter[0], log)
+            if not supports_ops(a[1]['spec']):
+                lefts.append(a)
+        while len(rights) < 3:
+            counter[0] += 1
+            a = gen_atom(rng, n, counter[0], log)
+            if supports_ops(a[1]['spec']):
+                rights.append(a)
+        rights.append(('and', [rights[0], rights[1]], None))
+        rights.append(('not', rights[2]))
+        for left in lefts:
+            for right in rights:
+                rspec = build(right, rng, 'ctor', log)
+                built = call(lambda: left[1]['spec'] & rspec)
+                if not built.ok:
+                    continue        # (Python does not allow this pair)
+                col.count('reflected_operand_expressions')
+                node = ('and', [left, right], None)
+                desc = '%s & %s' % (describe(left), describe(right))
+                wit = {'tree': desc, 'spec': short(built.value), 'style': 'reflected-operand'}
+                for bits in itertools.product([0, 1], repeat=n):
+                    target = tuple(bits)
+                    col.case(('reflected', shape(node), bits), True)
+                    want_log = []
+                    want = denote(node, target, want_log)
+                    del log[:]
+                    got = call(G, target, Match(built.value))
+                    compare(col, desc, got, want, target, list(log), want_log, 'Match:reflected-operand', wit)
+
+
 def handwritten(col, rng):
     """the documented idioms, plus single-operator trees for every comparison operator"""
     for op in OPS:
@@ -649,6 +689,7 @@ def run(ctx):
         handwritten(col, rng)
         target_is_the_atom_itself(col)
         combinators_under_fill(col)
+        reflected_operands(col, rng)
         check_cases(col)
         col.require('check_evaluations', 1000)
         # every tree of depth 1 over two atoms of each kind is covered by the random part below; make
